@@ -72,6 +72,9 @@ class RFramer:
         self.main = None
         self.original = True
         self.alive = True      # generator not ended
+        self.insular = False
+        self.razeable = False
+        self.aux_tags = {}     # tags of clones owned by this framer
         self.active_name = ""  # value of the .state.active share
         self.human = ""
 
@@ -113,13 +116,16 @@ def check(state, op, goal, tol):
 
 class Ref:
     def __init__(self, prog):
+        prog = lang.desugar(prog)
         self.prog = prog
+        self.moots = prog.get("moots", {})
         self.tick = float(abs(prog.get("tick", 0.125)))
         self.now = 0.0
         self.store = {}
         self.framers = {}
         self.order = []          # scheduled framers in fronts+mids+backs order
         self.log = []            # current tick events
+        self.razed = []
         self._build()
 
     # ------------------------------------------------------------------ build
@@ -141,6 +147,9 @@ class Ref:
             R.schedule = fm.get("schedule", "active")
             R.order = fm.get("order", "mid")
             R.period = max(0.0, float(fm.get("period") or 0.0))
+            R.original = fm.get("original", True)
+            R.insular = bool(fm.get("insular"))
+            R.aux_tags = {t: True for t in fm.get("clone_tags", [])}
             self.framers[R.name] = R
             for p in ("elapsed", "recurred", "active", "human"):
                 sh = self.share("framer.%s.state.%s" % (R.name, p), True)
@@ -165,6 +174,10 @@ class Ref:
                 F.outline = [R.frames[n] for n in lang.outline(fm, fr["name"])]
                 F.head = [R.frames[n] for n in lang.head(fm, fr["name"])]
             R.first = R.frames[lang.first_of(fm)]
+        for fm in self.prog["framers"]:
+            if fm.get("fixed_main"):
+                mf, mfr = fm["fixed_main"]
+                self.framers[fm["name"]].main = self.framers[mf].frames[mfr]
         # acts; resolution order per frame mirrors Frame.resolve: beacts, enacts, reacts, preacts, exacts...
         deferred_markers = []
         for fm in self.prog["framers"]:
@@ -188,7 +201,7 @@ class Ref:
                         F.auxes.append(self.framers[it[1]])
                     elif k == "auxif":
                         F.preacts.append(("auxif", it[1], list(it[2])))
-                    elif k in ("done", "bid", "fiat", "put", "inc", "copy"):
+                    elif k in ("done", "bid", "fiat", "put", "inc", "copy", "rear", "raze"):
                         self._ctxlist(F, it[1]).append(it)
                     else:
                         raise RefError("unknown item %r" % (it,))
@@ -370,7 +383,14 @@ class Ref:
             self.log.append(("~fiat", tgt.name, a[2], str(status == want)))
             return status == want
         if k == "put":
+            self.share(a[3], True)
             self.update(a[3], value=a[2])
+            return None
+        if k == "rear":
+            self.rear(F, a[2], a[3])
+            return None
+        if k == "raze":
+            self.raze(F, a[2], a[3])
             return None
         if k == "inc":
             sh = self.share(a[2])
@@ -380,6 +400,109 @@ class Ref:
             self.update(a[3], value=self.share(a[2]).fields["value"])
             return None
         raise RefError("unknown act %r" % (a,))
+
+    # ------------------------------------------------------------------ rear / raze (run-time clones)
+    def add_framer(self, fm):
+        R = RFramer(fm["name"])
+        R.schedule = fm.get("schedule", "aux")
+        R.original = fm.get("original", True)
+        R.insular = bool(fm.get("insular"))
+        R.aux_tags = {t: True for t in fm.get("clone_tags", [])}
+        self.framers[R.name] = R
+        for p in ("elapsed", "recurred", "active", "human"):
+            sh = self.share("framer.%s.state.%s" % (R.name, p), True)
+            sh.fields["value"] = {"elapsed": 0.0, "recurred": 0, "active": "", "human": ""}[p]
+        for fr in fm["frames"]:
+            R.frames[fr["name"]] = RFrame(fr["name"], R)
+        und, ov, nx = lang.unders_of(fm), lang.over_of(fm), lang.next_of(fm)
+        for fr in fm["frames"]:
+            F = R.frames[fr["name"]]
+            F.over = R.frames[ov[fr["name"]]] if ov.get(fr["name"]) else None
+            F.unders = [R.frames[u] for u in und[fr["name"]]]
+            F.next = R.frames[nx[fr["name"]]] if nx.get(fr["name"]) else None
+            F.outline = [R.frames[n] for n in lang.outline(fm, fr["name"])]
+            F.head = [R.frames[n] for n in lang.head(fm, fr["name"])]
+        R.first = R.frames[lang.first_of(fm)]
+        return R
+
+    def fill_acts(self, fm):
+        R = self.framers[fm["name"]]
+        for fr in fm["frames"]:
+            F = R.frames[fr["name"]]
+            for it in fr["items"]:
+                k = it[0]
+                if k == "rec":
+                    self._ctxlist(F, it[1]).append(it)
+                elif k == "go":
+                    F.preacts.append(("go", it[1], list(it[2])))
+                elif k == "timeout":
+                    F.preacts.append(("go", "next", [("elapsed", ">=", float(abs(it[1])), False)]))
+                elif k == "repeat":
+                    F.preacts.append(("go", "next", [("recurred", ">=", int(abs(it[1])), False)]))
+                elif k == "let":
+                    for n in it[1]:
+                        F.beacts.append(("need", n))
+                elif k == "aux":
+                    F.auxes.append(self.framers[it[1]])
+                elif k == "auxif":
+                    F.preacts.append(("auxif", it[1], list(it[2])))
+                else:
+                    self._ctxlist(F, it[1]).append(it)
+        for fr in fm["frames"]:
+            F = R.frames[fr["name"]]
+            for lst in (F.beacts, F.enacts, F.reacts, F.preacts, F.exacts, F.rexacts, F.renacts):
+                for act in list(lst):
+                    self._resolve_act(F, act)
+
+    def rear(self, F, orig, frame):
+        """rear <moot> as mine be aux in frame <frame>: a new insular, razeable clone is attached to
+        <frame> (not allowed inside the acting frame's own outline); it starts when <frame> is next entered."""
+        R = F.framer
+        target = R.frames[frame]
+        if target in F.outline:
+            return
+        n = 1
+        while ("%s%d" % (orig, n)) in R.aux_tags:
+            n += 1
+        tag = "%s%d" % (orig, n)
+        R.aux_tags[tag] = True
+        name = "%s_%s" % (R.name, tag)
+        made = lang.instantiate(self.moots, self.moots[orig], name, (R.name, target.name))
+        new = [self.add_framer(fm) for fm in made]
+        for fm in made:
+            if fm.get("fixed_main"):
+                mf, mfr = fm["fixed_main"]
+                self.framers[fm["name"]].main = self.framers[mf].frames[mfr]
+        for fm in made:
+            self.fill_acts(fm)
+        C = self.framers[name]
+        C.insular = True
+        C.razeable = True
+        C.tag = tag
+        target.auxes.append(C)
+
+    def prune(self, C):
+        if not C.done:
+            self.exit_all(C)
+        for Fr in C.frames.values():
+            for aux in [a for a in Fr.auxes if getattr(a, "insular", False)]:
+                self.prune(aux)
+                Fr.auxes.remove(aux)
+        self.framers.pop(C.name, None)
+        self.razed.append(C.name)
+
+    def raze(self, F, who, frame):
+        R = F.framer
+        target = F if frame in (None, "me") else R.frames[frame]
+        cands = [a for a in target.auxes if getattr(a, "insular", False) and getattr(a, "razeable", False)]
+        if who == "first":
+            cands = cands[:1]
+        elif who == "last":
+            cands = cands[-1:]
+        for aux in cands:
+            self.prune(aux)
+            target.auxes.remove(aux)
+            R.aux_tags.pop(getattr(aux, "tag", None), None)
 
     # ------------------------------------------------------------------ frames
     def frame_check_enter(self, F, exits):
@@ -698,5 +821,6 @@ class Ref:
         for R, due, per in ready:
             self.send(R, ABORT)
         out.events.append(trailing + self.log)
-        out.final = {"framers": [self.snapshot(R) for R in self.framers.values()]}
+        out.final = {"framers": [self.snapshot(R) for R in self.framers.values()],
+                     "registry": sorted(self.framers), "razed": list(self.razed)}
         return out
